@@ -15,7 +15,10 @@ pub struct AffinePoint {
 
 impl Hash for AffinePoint {
     fn hash<H: core::hash::Hasher>(&self, state: &mut H) {
-        self.inner.hash(state);
+        // Equal points can have different inner curve points (the two members
+        // of a coset), so hash the canonical encoding.
+        let element: Element = self.into();
+        element.vartime_compress().0.hash(state);
     }
 }
 
